@@ -15,7 +15,9 @@ From V Require Import base.Cal rstr.RstrPrim.
 Import ListNotations.
 Open Scope Z_scope.
 
-Inductive err := EValue | EType | EIndex | EUnmodelled.
+(* one constructor per Python exception class (EUnmodelled is not an exception: the input left the
+   modelled fragment) *)
+Inductive err := EValue | EType | EIndex | EKey | EAttr | EOverflow | EUnmodelled.
 Inductive res (A : Type) := Ok (a : A) | Err (e : err).
 Arguments Ok {A} a.
 Arguments Err {A} e.
@@ -106,7 +108,12 @@ Definition list_names : list str :=
    (token sequences [8 digits], [8 digits; T; 6 digits], [...; Z] of the generic parser:
    year/month/day taken positionally because the year is labelled, HHMMSS because ymd is
    already full, 'Z' a UTC zone name; datetime() range checks -> ValueError). *)
-Inductive dres := DOk (d : dt) | DBad | DUn.
+(* DBad = ValueError (ParserError), DOv = OverflowError, DUn = outside the modelled forms.
+   DOv: a string of 15 or more digits that does not start with '0' is one numeric token read as a year
+   above INT_MAX: datetime raises OverflowError (checked against parser.parse in the date stream). *)
+Inductive dres := DOk (d : dt) | DBad | DOv | DUn.
+Definition overlong_digits (s : str) : bool :=
+  (15 <=? Z.of_nat (List.length s)) && forallb is_digit s && negb (match s with c :: _ => c =? 48 | [] => true end).
 
 Definition n2 (a b : Z) : Z := 10 * dval a + dval b.
 Definition n4 (a b c d : Z) : Z := 1000 * dval a + 100 * dval b + 10 * dval c + dval d.
@@ -116,7 +123,7 @@ Definition mk_date (ignoretz : bool) (y mo d h mi s : Z) (z : bool) : dres :=
   then DOk (mkdt y mo d h mi s 0 (if z && negb ignoretz then 1 else 0))
   else DBad.
 
-Definition parse_date (ignoretz : bool) (s : str) : dres :=
+Definition parse_date_compact (ignoretz : bool) (s : str) : dres :=
   match s with
   | [a; b; c; d; e; f; g; h] =>
     if forallb is_digit s then mk_date ignoretz (n4 a b c d) (n2 e f) (n2 g h) 0 0 0 false else DUn
@@ -128,6 +135,8 @@ Definition parse_date (ignoretz : bool) (s : str) : dres :=
     then mk_date ignoretz (n4 a b c d) (n2 e f) (n2 g h) (n2 i j) (n2 k l) (n2 m n) true else DUn
   | _ => DUn
   end.
+Definition parse_date (ignoretz : bool) (s : str) : dres :=
+  if overlong_digits s then DOv else parse_date_compact ignoretz s.
 
 (* ---------------------------------------------------------------------------------- *)
 (* _handle_* *)
@@ -177,6 +186,39 @@ Definition parse_wd (x : str) : option wd :=
 
 Definition wd_list (value : str) : option (list wd) := opt_all (map parse_wd (split_on 44 value)).
 
+(* the exception class of a BYDAY value that is not accepted: per member, in order: int() -> ValueError,
+   then self._weekday_map[w] -> KeyError, then weekday(n=0) -> ValueError; the empty member -> ValueError *)
+Definition mk_wd_class (w : str) (n : option Z) : option err :=
+  match wday_of w with
+  | None => Some EKey
+  | Some _ => match n with Some 0 => Some EValue | _ => None end
+  end.
+Definition parse_wd_class (x : str) : option err :=
+  if has_char 40 x then
+    match split_on 40 x with
+    | w :: a :: _ => match py_int (removelast a) with
+                     | Some n => mk_wd_class w (Some n)
+                     | None => Some EValue
+                     end
+    | _ => Some EIndex                            (* unreachable: x contains '(' *)
+    end
+  else if isnil x then Some EValue
+  else
+    let pp := span is_signdigit x in
+    let ns := if isnil (snd pp) then removelast x else fst pp in
+    let w := if isnil (snd pp) then skipn (List.length x - 1) x else snd pp in
+    if isnil ns then mk_wd_class w None
+    else match py_int ns with
+         | Some n => mk_wd_class w (Some n)
+         | None => Some EValue
+         end.
+Fixpoint first_class (l : list str) : err :=
+  match l with
+  | [] => EValue                                  (* not used: some member fails *)
+  | x :: r => match parse_wd_class x with Some e => e | None => first_class r end
+  end.
+Definition wd_list_class (value : str) : err := first_class (split_on 44 value).
+
 (* options of rrulestr() that the model covers *)
 Record opts := mkopts {
   o_dtstart : option dt; o_cache : bool; o_unfold : bool; o_forceset : bool;
@@ -189,25 +231,47 @@ Fixpoint list_index (name : str) (l : list str) (i : Z) : option Z :=
   | x :: r => if leqb name x then Some i else list_index name r (i + 1)
   end.
 
-(* getattr(self, "_handle_" + name)(rrkwargs, name, value): AttributeError, KeyError and
-   ValueError all become ValueError *)
+(* try: r  except (c1, c2, ..): raise e' *)
+Definition catch {A} (r : res A) (classes : list err) (e' : err) : res A :=
+  match r with
+  | Err e => if existsb (fun c => match c, e with
+                                  | EValue, EValue | EType, EType | EIndex, EIndex | EKey, EKey
+                                  | EAttr, EAttr | EOverflow, EOverflow | EUnmodelled, EUnmodelled => true
+                                  | _, _ => false end) classes then Err e' else Err e
+  | ok => ok
+  end.
+
+(* parser.parse(value, ignoretz=..) as an exception-raising call *)
+Definition parse_date_res (ignoretz : bool) (value : str) : res dt :=
+  match parse_date ignoretz value with
+  | DOk d => Ok d | DBad => Err EValue | DOv => Err EOverflow | DUn => Err EUnmodelled end.
+
+(* self._parse_date(datestr, ignoretz, tzinfos): except OverflowError: raise ValueError *)
+Definition parse_date_method (ignoretz : bool) (value : str) : res dt :=
+  catch (parse_date_res ignoretz value) [EOverflow] EValue.
+
+(* getattr(self, "_handle_" + name)(rrkwargs, name, value): each handler raises its own class --
+   int() ValueError, the dict lookups KeyError, an unknown name AttributeError; _handle_UNTIL turns
+   (ValueError, OverflowError) of the parser into ValueError *)
 Definition handle (ignoretz : bool) (name value : str) (kw : kwargs) : res kwargs :=
   if leqb name s_INTERVAL then
     match py_int value with Some n => Ok (set_interval n kw) | None => Err EValue end
   else if leqb name s_COUNT then
     match py_int value with Some n => Ok (set_count n kw) | None => Err EValue end
   else if leqb name s_FREQ then
-    match freq_of value with Some f => Ok (set_freq f kw) | None => Err EValue end
+    match freq_of value with Some f => Ok (set_freq f kw) | None => Err EKey end
   else if leqb name s_UNTIL then
     match parse_date ignoretz value with
-    | DOk d => Ok (set_until d kw) | DBad => Err EValue | DUn => Err EUnmodelled end
+    | DOk d => Ok (set_until d kw) | DBad => Err EValue
+    | DOv => Err EValue                 (* except (ValueError, OverflowError): raise ValueError *)
+    | DUn => Err EUnmodelled end
   else if leqb name s_WKST then
-    match wday_of value with Some w => Ok (set_wkst w kw) | None => Err EValue end
+    match wday_of value with Some w => Ok (set_wkst w kw) | None => Err EKey end
   else if leqb name s_BYWEEKDAY || leqb name s_BYDAY then
-    match wd_list value with Some l => Ok (set_byweekday l kw) | None => Err EValue end
+    match wd_list value with Some l => Ok (set_byweekday l kw) | None => Err (wd_list_class value) end
   else match list_index name list_names 0 with
        | Some i => match int_list value with Some l => Ok (set_list i l kw) | None => Err EValue end
-       | None => Err EValue
+       | None => Err EAttr
        end.
 
 (* for pair in value.split(';'): name, value = pair.split('='); upper both; handle *)
@@ -217,7 +281,8 @@ Fixpoint handle_pairs (ignoretz : bool) (pairs : list str) (kw : kwargs) : res k
   | p :: r =>
     match split_on 61 p with
     | [name; value] =>
-      match handle ignoretz (upper name) (upper value) kw with
+      (* except AttributeError: raise ValueError   except (KeyError, ValueError): raise ValueError *)
+      match catch (catch (handle ignoretz (upper name) (upper value) kw) [EAttr] EValue) [EKey; EValue] EValue with
       | Ok kw' => handle_pairs ignoretz r kw'
       | Err e => Err e
       end
@@ -355,6 +420,21 @@ Definition bad_time (fq : Z) (hs ms ss : list Z) : bool :=
 
 Definition olist (o : option (list Z)) : list Z := match o with Some l => l | None => [] end.
 
+(* the class of the first failing datetime.time(hour, minute, second) of the nested loops: the three
+   arguments are converted to C int first (OverflowError beyond 32 bits), then range-checked (ValueError) *)
+Definition huge_int (x : Z) : bool := (x <? -2147483648) || (2147483647 <? x).
+Definition time_class (h m s : Z) : option err :=
+  if huge_int h || huge_int m || huge_int s then Some EOverflow
+  else if (0 <=? h) && (h <=? 23) && (0 <=? m) && (m <=? 59) && (0 <=? s) && (s <=? 59) then None
+  else Some EValue.
+Fixpoint first_some {A} (l : list (option A)) : option A :=
+  match l with [] => None | Some x :: _ => Some x | None :: r => first_some r end.
+Definition timeset_class (hs ms ss : list Z) : err :=
+  match first_some (flat_map (fun h => flat_map (fun m => map (fun s => time_class h m s) ss) ms) hs) with
+  | Some e => e
+  | None => EValue                 (* not used: bad_time holds *)
+  end.
+
 Definition ctor (ev : env) (dtstart : option dt) (kw : kwargs) : res rule :=
   match k_freq kw with
   | None => Err EType                 (* rrule() missing required argument 'freq' *)
@@ -402,7 +482,7 @@ Definition ctor (ev : env) (dtstart : option dt) (kw : kwargs) : res rule :=
     | Err e => Err e
     | Ok (r_second, o_second) =>
       if bad_time fq (olist r_hour) (olist r_minute) (olist r_second)
-      then Err EValue
+      then Err (timeset_class (olist r_hour) (olist r_minute) (olist r_second))
       else Ok (mkrule start fq interval wkst (k_count kw) until
                       (k_bysetpos kw) r_month r_mday r_nmday r_yday r_easter r_weekno
                       r_wday r_nwday r_hour r_minute r_second
@@ -487,6 +567,7 @@ Fixpoint pdv_dates (ignoretz : bool) (tzid : Z) (l : list str) : res (list dt) :
     match parse_date ignoretz x with
     | DUn => Err EUnmodelled
     | DBad => Err EValue
+    | DOv => Err EValue             (* self._parse_date: except OverflowError: raise ValueError *)
     | DOk d =>
       if negb (tzid =? 0) && negb (dtz d =? 0) then Err EValue   (* multiple timezone *)
       else
@@ -579,7 +660,7 @@ Definition parse_rule (ev : env) (ignoretz : bool) (line : str) (dtstart : optio
   match parse_rrule_kw ignoretz line with
   | Err e => Err e
   | Ok kw => if isNone (k_freq kw) then Err EValue      (* "missing FREQ" *)
-             else ctor ev dtstart kw
+             else catch (ctor ev dtstart kw) [EOverflow] EValue   (* except OverflowError: raise ValueError *)
   end.
 
 Fixpoint parse_rules (ev : env) (ignoretz : bool) (dtstart : option dt) (l : list str) : res (list rule) :=
